@@ -8,12 +8,15 @@ EXPL = ("Decides the *borders* named in the property from the exact branch condi
         "the unit being the same const fn that defines MAX_INPUT_SIZE at index 30 ((3<<n)*64); SA-STEP: block-size elimination in all three "
         "update forms requires two active contexts, the size border passed and the NEXT context holding >= HALF_SIZE pieces, and the final "
         "guess halves exactly while the candidate context has < HALF_SIZE pieces (same named constant), starting from "
-        "min(size-based index, bhidx_end-1). NOT decided: the block-size choice "
+        "min(size-based index, bhidx_end-1); the level walk starts only when roll+1 != 0, ((roll+1)/3)&roll_mask == 0 and (roll+1)%3 == 0, "
+        "with h shifted by bhidx_start once and by 1 per level, continuing only while the level bit is clear; the digest takes block "
+        "hash 1 from context L, block hash 2 from context L+1 (or the two single-piece sources) and the block size from L. NOT decided: the block-size choice "
         "and the last-piece hash as values at large indices (arithmetic over the input).")
 
 
 def run(ctx):
     cfgs = ["rel"] if ctx.tier == "quick" else ["rel", "dbg", "unsafe", "nodef"]
+    ctx.progs(cfgs)  # build all configurations in parallel
     for c in cfgs:
         prog = ctx.prog(c)
         ctx.guard("C13", "set_fixed", lambda: gen.guards_set_fixed(ctx, prog))
@@ -22,4 +25,6 @@ def run(ctx):
         ctx.guard("C13", "small", lambda: gen.guard_small_input(ctx, prog))
         ctx.guard("C13", "initial", lambda: gen.guard_initial_block_size(ctx, prog))
         ctx.guard("C13", "step", lambda: engine.step_thresholds(ctx, prog))
+        ctx.guard("C13", "trigger", lambda: engine.trigger_and_levels(ctx, prog))
+        ctx.guard("C13", "digest", lambda: engine.digest_sources(ctx, prog))
     return ctx.finish(EXPL, ["rustc's compile-time evaluation of MAX_INPUT_SIZE / MIN_RECOMMENDED_INPUT_SIZE", "u64_ilog2 computes floor(log2) (checked arithmetically by the repository's own tests, not here)"])
